@@ -490,18 +490,26 @@ def main(tier: str) -> int:
     rep = report.Report("C15", tier, "model_checking")
     agg = explore_all(tier, rep)
     n_stateless = validate_canon(agg["sorted_keys"], rep, 2 if tier == "quick" else 3)
+    ep_states = ep_transitions = 0
+    for size, ns, nt, viols in explore.pool().map(endpoint_job, [1, 2] if tier == "quick" else [0, 1, 2, 3]):
+        ep_states += ns
+        ep_transitions += nt
+        for v, sz, hist in viols:
+            rep.add_violation(vkey(v), v, {"world": "c15-endpoint", "size": sz, "events": [list(EpWorld.EVENTS[j]) for j in hist]})
     kinds, transitions, n_init, max_depth = agg["kinds"], agg["transitions"], agg["n_init"], agg["max_depth"]
     nontrivial = sum(1 for k in kinds if k[2] > 0)
     if agg["states"] < 100 or nontrivial < 6:
         raise explore.InternalError(f"C15 vacuous: states={agg['states']} kinds={kinds}")
     rep.coverage = {
-        "states": agg["states"],
+        "states": agg["states"] + ep_states,
         "states_per_family_size": agg["per_size"],
-        "transitions": transitions,
-        "traces_validated_against_impl": transitions + n_stateless,
+        "transitions": transitions + ep_transitions,
+        "traces_validated_against_impl": transitions + n_stateless + ep_transitions,
         "closed": True,
         "exhaustive": True,
         "initial_states": n_init,
+        "endpoint_states": ep_states,
+        "endpoint_transitions": ep_transitions,
         "alphabet_size": len(EVENTS),
         "max_depth": max_depth,
         "stateless_sequences": n_stateless,
@@ -521,6 +529,14 @@ def main(tier: str) -> int:
 
 
 def replay(data) -> int:
+    if data.get("world") == "c15-endpoint":
+        w = EpWorld(data["size"])
+        bad = 0
+        for ev in data["events"]:
+            w.apply(EpWorld.EVENTS.index(tuple(ev)))
+            print(ev, "-> table", w.ezsp.table, "member_of", sorted(int(x) for x in w.ep.member_of), w.viol)
+            bad += len(w.viol)
+        return 1 if bad else 0
     w = World([tuple(x) for x in data["table"]], data.get("family", "ember"), data.get("normalise", True))
     bad = 0
     for ev in data["events"]:
@@ -531,3 +547,127 @@ def replay(data) -> int:
         print(ev, "-> writes", w.ezsp.writes, "table", w.ezsp.table, "host", w.host_view(), w.viol)
         bad += len(w.viol)
     return 1 if bad else 0
+
+
+# --- group operations through the coordinator endpoint (bellows/zigbee/device.py) ----------------------
+
+class EpWorld:
+    """Real ``EZSPEndpoint.add_to_group / remove_from_group`` on a real zigpy device of a real ControllerApplication
+    whose multicast controller talks to the simulated table.  Starts from a blank table after start-up."""
+
+    EVENTS = [(op, g, a) for op in ("add", "remove") for g in G[:2] for a in ANSWERS]
+
+    def __init__(self, size):
+        import zigpy.device
+        import zigpy.types as zt
+        import zigpy.zdo.types as zdo_t
+
+        from bellows.multicast import Multicast
+        from bellows.zigbee.device import EZSPEndpoint
+        from mc.env import appenv
+
+        self.loop = VLoop().enter()
+        self.app, _ezsp, _gw, _ncp = appenv.make_app(self.loop, 8)
+        self.ezsp = FakeEzsp([(0, 0)] * size, "ember")
+        self.app._multicast = Multicast(self.ezsp)
+        dev = zigpy.device.Device(self.app, zt.EUI64(bytes(range(8))), zt.NWK(0))
+        desc = zdo_t.SimpleDescriptor(endpoint=1, profile=0x0104, device_type=0x0005, device_version=0, input_clusters=[], output_clusters=[])
+        self.ep = EZSPEndpoint(dev, 1, desc)
+        dev.endpoints[1] = self.ep
+        self.viol = []
+        self._run(self.app._multicast.startup(Coordinator(())))
+
+    def _run(self, coro):
+        task = self.loop.create_task(coro)
+        self.loop.run_until_idle(horizon=self.loop.time() + 60)
+        if not task.done():
+            task.cancel()
+            self.loop.settle()
+            return ("hang", None)
+        if task.exception() is not None:
+            return ("raise", type(task.exception()).__name__)
+        return ("ret", task.result())
+
+    def apply(self, i):
+        op, g, ans = self.EVENTS[i]
+        self.viol = []
+        member_before = g in self.ep.member_of
+        sub = {gid for gid, ep in self.ezsp.table if ep != 0}
+        free = [k for k, (gid, ep) in enumerate(self.ezsp.table) if ep == 0]
+        self.ezsp.answer = ans
+        self.ezsp.writes = []
+        kind, val = self._run(self.ep.add_to_group(g) if op == "add" else self.ep.remove_from_group(g))
+        tag = f"endpoint {op}_group({g:#06x},{ans}) on table"
+        w = self.ezsp.writes
+        member_now = g in self.ep.member_of
+        if kind == "hang":
+            self.viol.append(f"{tag}: call never finished")
+            return
+        if op == "add":
+            if member_before:
+                if w or kind != "ret":
+                    self.viol.append(f"{tag}: endpoint is already a member but the call wrote {len(w)} entries / ended with {kind}")
+            elif g not in sub and not free:
+                if kind != "raise" or member_now:
+                    self.viol.append(f"{tag}: no free index, expected an error and no membership, got {kind} membership={member_now}")
+            else:
+                ok = ans == "ok" or g in sub
+                if ok and not (kind == "ret" and member_now):
+                    self.viol.append(f"{tag}: subscription accepted but the call ended with {kind} {val}, membership={member_now}")
+                if not ok and (kind != "raise" or member_now):
+                    self.viol.append(f"{tag}: subscription failed but the call ended with {kind}, membership={member_now}")
+        else:
+            if not member_before:
+                if w or kind != "ret":
+                    self.viol.append(f"{tag}: endpoint is not a member but the call wrote {len(w)} entries / ended with {kind}")
+            else:
+                if ans == "ok" and not (kind == "ret" and not member_now):
+                    self.viol.append(f"{tag}: unsubscription accepted but the call ended with {kind}, membership={member_now}")
+                if ans != "ok" and (kind != "raise" or not member_now):
+                    self.viol.append(f"{tag}: unsubscription failed but the call ended with {kind}, membership={member_now}")
+        # the endpoint's groups are exactly those programmed in the NCP
+        now = {gid for gid, ep in self.ezsp.table if ep != 0}
+        if set(int(x) for x in self.ep.member_of) != now:
+            self.viol.append(f"{tag}: endpoint is member of {sorted(int(x) for x in self.ep.member_of)} but the NCP has {sorted(now)} programmed")
+        m = self.app._multicast
+        if isinstance(getattr(m, "_available", None), set):
+            m._available = set(sorted(m._available))
+            used = sorted(int(v[1]) for v in m._multicast.values())
+            if sorted(used + sorted(m._available)) != list(range(len(self.ezsp.table))):
+                self.viol.append(f"{tag}: index partition broken: used {used} + free {sorted(m._available)}")
+
+    def canon(self):
+        return (tuple(self.ezsp.table), tuple(sorted(int(x) for x in self.ep.member_of)), self.app._multicast and tuple(sorted(getattr(self.app._multicast, "_available", ()))))
+
+    def close(self):
+        self.loop.shutdown()
+
+
+def endpoint_job(size):
+    import logging
+
+    logging.disable(logging.CRITICAL)
+    seen = {}
+    frontier = collections.deque([()])
+    w0 = EpWorld(size)
+    seen[w0.canon()] = ()
+    w0.close()
+    viols = []
+    transitions = 0
+    while frontier:
+        hist = frontier.popleft()
+        for i in range(len(EpWorld.EVENTS)):
+            w = EpWorld(size)
+            bad = False
+            for c in hist:
+                w.apply(c)
+            w.apply(i)
+            transitions += 1
+            for v in w.viol:
+                viols.append((v, size, hist + (i,)))
+            k = w.canon()
+            if k not in seen and not w.viol:
+                seen[k] = hist + (i,)
+                frontier.append(hist + (i,))
+            w.close()
+    return size, len(seen), transitions, viols
